@@ -101,6 +101,8 @@ def cnf_to_json(formula: List[And]) -> List[List[int]]:
                 or_list.append(l)
             elif isinstance(o, int):
                 or_list.append([o])
+            elif isinstance(o, Not) and isinstance(o.c, int):
+                or_list.append([-o.c])
             else:
                 raise ValueError("Value was not Or tuple or variable!")
     return or_list
